@@ -4,6 +4,7 @@ import (
 	"fmt"
 	"strings"
 	"testing"
+	"unicode/utf8"
 
 	"github.com/c4pt0r/kvql"
 	"pgregory.net/rapid"
@@ -81,17 +82,11 @@ func checkC16(q string) (msg string) {
 		case t.Tp == kvql.STRING:
 			return fmt.Sprintf("query %q: string token %d does not start at a quote: %s", q, i, showToks(toks))
 		default:
-			end := t.Pos + len(t.Data)
-			if end > len(q) {
-				return fmt.Sprintf("query %q: token %d extends beyond the query: %s", q, i, showToks(toks))
+			n, ok := c16SourceSpan(q[t.Pos:], t.Data, isWordTok(t))
+			if !ok {
+				return fmt.Sprintf("query %q: token %d text %q is not what stands at its offset %d (%q..): %s", q, i, t.Data, t.Pos, q[t.Pos:min(len(q), t.Pos+len(t.Data)+2)], showToks(toks))
 			}
-			got := q[t.Pos:end]
-			if isWordTok(t) {
-				got = lib.FoldWord(got)
-			}
-			if got != t.Data {
-				return fmt.Sprintf("query %q: token %d text %q is not what stands at its offset %d (%q): %s", q, i, t.Data, t.Pos, q[t.Pos:end], showToks(toks))
-			}
+			span = n
 		}
 		prevEnd = t.Pos + span
 	}
@@ -110,6 +105,30 @@ func checkC16(q string) (msg string) {
 	return ""
 }
 
+// c16SourceSpan: how many bytes at the start of rest spell data. Operators
+// and punctuation are carried as written; a word is carried case-folded, and
+// folding may change the byte length of a letter (U+212A KELVIN SIGN folds to
+// k), so the source is walked letter by letter.
+func c16SourceSpan(rest, data string, word bool) (int, bool) {
+	if !word {
+		return len(data), strings.HasPrefix(rest, data)
+	}
+	done := 0
+	for i := 0; i < len(rest); {
+		_, size := utf8.DecodeRuneInString(rest[i:])
+		piece := lib.FoldWord(rest[i : i+size])
+		if !strings.HasPrefix(data[done:], piece) {
+			return 0, false
+		}
+		done += len(piece)
+		i += size
+		if done == len(data) {
+			return i, true
+		}
+	}
+	return 0, false
+}
+
 func isWordTok(t *kvql.Token) bool {
 	switch t.Tp {
 	case kvql.OPERATOR:
@@ -125,8 +144,10 @@ func isWordTok(t *kvql.Token) bool {
 }
 
 // tab and line end are blanks like the space; \xff is a byte that is not
-// valid UTF-8 (a word must carry it unchanged)
-const c16Alphabet = "a1. '\"`=!<>^~&|()[],;+-*/\t\n\xff"
+// valid UTF-8 (a word must carry it unchanged); form feed is a blank the
+// documentation does not mention (the reference abstains, but whatever the
+// lexer makes of it, every token must stand where it says it stands)
+const c16Alphabet = "a1. '\"`=!<>^~&|()[],;+-*/\t\n\xff\f"
 
 func c16Nontrivial(q string) bool {
 	// a two-character operator, or a quoted literal adjacent to another token
